@@ -677,21 +677,31 @@ def _fault_key(fault: Any) -> Any:
 
 
 def rebuilt_system(name: str, steps: int, time: float,
-                   fault: Any = None) -> Any:
+                   fault: Any = None, tdtype: Any = None) -> Any:
     """The bundled system rebuilt through the public ``System`` constructor
     with a small training budget (same training states; the bundled
     equations, optionally with a state-dependent fault as in C10)."""
-    key = ("sys", name, int(steps), float(time), _fault_key(fault))
+    key = ("sys", name, int(steps), float(time), _fault_key(fault), tdtype)
     if key in _CACHE:
         return _CACHE[key]
+    import numpy as np
     from moptipyapps.dynamic_control.system import System
     orig = bundled_system(name)
+    training = orig.training_starting_states
+    if tdtype == "float32":  # starting states given in another number type
+        training = training.astype(np.float32)
+    elif tdtype == "int64":
+        training = np.rint(training * {"stuart_landau": 4.0, "lorenz": 1.0,
+                                       "3oscillators": 8.0}[name]
+                           ).astype(np.int64)
     system = System(orig.name, orig.state_dims, orig.control_dims,
                     orig.state_dim_mod, orig.state_dims_in_j, orig.gamma,
                     orig.test_starting_states,
-                    orig.training_starting_states,
-                    int(steps), float(time), int(steps), float(time),
-                    (0, ))
+                    training,
+                    # the test budget differs from the training budget: the
+                    # objective is defined over the training cases only
+                    int(steps) + 3, float(time) * 1.5,
+                    int(steps), float(time), (0, ))
     spec = {"kind": "bundled", "name": name}
     if fault:
         spec["fault"] = fault
@@ -709,13 +719,14 @@ def build_instance_dc(init: dict) -> Any:
     ``work_counter`` of the returned instance) through the public
     ``Controller`` constructor."""
     key = ("inst", init["sys"], init["ctrl"], int(init["steps"]),
-           float(init["time"]), _fault_key(init.get("fault")))
+           float(init["time"]), _fault_key(init.get("fault")),
+           init.get("tdtype"))
     if key in _CACHE:
         return _CACHE[key]
     from moptipyapps.dynamic_control.controller import Controller
     from moptipyapps.dynamic_control.instance import Instance
     system = rebuilt_system(init["sys"], init["steps"], init["time"],
-                            init.get("fault"))
+                            init.get("fault"), init.get("tdtype"))
     orig = bundled_controllers(SYSTEM_DIM[init["sys"]])[init["ctrl"]]
     counter = WorkCounter()
     ctrl = Controller(orig.name, orig.state_dims, orig.control_dims,
@@ -780,6 +791,10 @@ def objective_inits(catalog: dict) -> Any:
                 "smm": draw(st.sampled_from([True] * 5 + [False])),
                 "steps": draw(st.integers(10, 40)),
                 "time": draw(_f(0.5, 5.0))}
+        tdt = draw(st.sampled_from([None, None, None, None, "float32",
+                                    "int64"]))
+        if tdt:
+            init["tdtype"] = tdt
         kind = draw(st.sampled_from([0, 1, 2, 3, 4, 5, 6, 7, 8, 9]))
         if kind < 2:
             # the differential is undefined where the control effort (or,
